@@ -43,6 +43,10 @@ for (k, f, s) in ops:
         ks = [kk for kk, _ in q]
         if ks != sorted(ks): print('queue not in time order'); bad = 1
         if k != 2 and count is not None and len(q) > count: print('count limit exceeded after handling'); bad = 1
+        if k != 2 and duration is not None and len(q) > 0 and q[-1][0] - q[0][0] > duration: print('duration limit exceeded after handling', (k, f, s)); bad = 1
+    if k != 2 and size is not None and truth > size: print('size limit %%d exceeded after a reported file was handled: %%d bytes tracked on disk' %% (size, truth), (k, f, s)); bad = 1
+    on_disk = sorted(pp for pp in paths if os.path.exists(pp))
+    if any(pp not in on_disk for pp in tracked): print('tracked file missing on disk'); bad = 1
 shutil.rmtree(top)
 sys.exit(1 if bad else 0)
 '''
